@@ -86,7 +86,7 @@ Preorder(n, prefix) ==
      ELSE <<>>)
 
 NotNewOffenders(n, prefix, exceptions, includeSelf) ==
-    SelectSeq(Preorder(n, prefix),
+    SelectSeq(IF Mut("NotNewShallow") THEN <<prefix>> ELSE Preorder(n, prefix),
               LAMBDA p : /\ (includeSelf \/ p # prefix)
                          /\ ~EffNew(At(n, SubSeq(p, Len(prefix) + 1, Len(p))))
                          /\ p \notin exceptions)
@@ -165,7 +165,7 @@ Merge(self, other, path) ==
         badKeys == IsList(self0) /\ IsDict(other) /\ \E i \in 1..Len(other.ch) : ~ValidIndex(self0, other.ch[i][1])
         other1 == IF IsList(self0) /\ IsComposed(other) THEN PreFilter(other, <<>>, self0) ELSE other
     IN
-    IF badKeys THEN Err("MergeError", path, path)                   \* list.py:133-143
+    IF badKeys THEN Err("MergeError", path, <<>>)                   \* list.py:133-143 (names keys, not a node)
     ELSE IF ~IsComposed(other1) THEN LeafRule(self0, other1)         \* composed.py:285-286
     ELSE
     LET del     == EffDel(other1) \/ Mut("PruneAlways")
@@ -201,7 +201,7 @@ MergeKids(self, other, path, i) ==
     ELSE IF ~HasChild(self, key)
     THEN LET off == NotNewOffenders(value, kp, {}, TRUE)
          IN IF off # <<>> THEN Err("MergeError", path, off[1])
-            ELSE IF IsList(self) /\ ~IsIntKey(key) THEN Err("MergeError", path, kp)
+            ELSE IF IsList(self) /\ ~IsIntKey(key) THEN Err("MergeError", path, <<>>)
             ELSE MergeKids(SetChild(self, IF IsList(self) THEN IKey(Len(self.ch)) ELSE key, value), other, path, i + 1)
     ELSE
     LET child == Child(self, key)
@@ -311,7 +311,7 @@ FirstDoc(d) ==
     LET pm == PremergeKids(d, <<>>, d, TRUE)
     IN IF IsErr(pm) THEN pm
        ELSE LET off == NotNewOffenders(pm.o, <<>>, {}, TRUE)
-            IN IF off # <<>> THEN Err("MergeError", <<>>, off[1]) ELSE pm.o
+            IN IF off # <<>> /\ ~Mut("NotNewSkipsFirst") THEN Err("MergeError", <<>>, off[1]) ELSE pm.o
 
 \* the left fold of builder.py:flatten over parsed documents
 FoldDocs(ds) ==
